@@ -58,7 +58,9 @@ async fn phase(transport: &str, why: &mut Vec<String>) {
         });
         (addr, server_handle)
     } else {
-        let server = Server::builder().build("127.0.0.1:0").await.unwrap();
+        // (a keep-alive timeout shorter than the handler: it concerns idle HTTP/2 connections and must not bound the drain of calls in flight)
+        let cfg = jsonrpsee_server::ServerConfig::builder().set_keep_alive_timeout(Duration::from_millis(200)).build();
+        let server = Server::builder().set_config(cfg).build("127.0.0.1:0").await.unwrap();
         (server.local_addr().unwrap(), server.start(module(log.clone())))
     };
     let transport_kind = transport.trim_start_matches("low-level-");
